@@ -32,6 +32,29 @@ def run(ctx):
     ctx.validate("PCACD", ts, "multivariate streams with level / variance / correlation shifts", sabotage=D.sabotage,
                  replay=lambda i: {"params": ts[i]["params"], "xs": ts[i]["xs"], "resets": ts[i]["resets"], "seed": ts[i]["seed"]},
                  nontrivial=lambda t: any(e["state"] == "drift" for e in t["ev"]))
+    # online_scaling given as a truthy value that is not the builtin True (numpy.bool_(True) from a comparison, the integer 1): whichever of the two
+    # modes the detector takes it for, it has to be THAT mode in every epoch - each run is recorded twice, once against each mode's kernel, and one of
+    # the two traces must be a behaviour of the specification
+    from .. import tlc
+    pairs = []
+    for i in range(4 if q else 24):
+        p = D.params(rng)
+        p["flag"] = ("npbool", "one")[i % 2]
+        W = p["window_size"]
+        xs = D.restless_stream(rng, rng.randint(7, 9) * W, 3, W) if i % 4 < 2 else D.stream(rng, rng.randint(7, 9) * W, 3, W)
+        xs = [[10.0 * v + 50.0 * (j + 1) for j, v in enumerate(r)] for r in xs]          # far from standardised: the two modes differ visibly
+        s_ = rng.randrange(10 ** 6)
+        pairs.append([D.run(dict(p, online_scaling=m), xs, (), s_) for m in (True, False)])
+    va, _ = tlc.validate_traces("Trace_PCACD", [{"cfg": a["cfg"], "ev": a["ev"]} for a, b in pairs])
+    vb, _ = tlc.validate_traces("Trace_PCACD", [{"cfg": b["cfg"], "ev": b["ev"]} for a, b in pairs])
+    ctx.traces += len(pairs)
+    ctx.events += sum(len(a["ev"]) for a, b in pairs)
+    ctx.parts["truthy online_scaling flags"] = {"runs": len(pairs), "taken as True": sum(1 for v in va if v is None), "taken as False": sum(1 for v in vb if v is None)}
+    for k, (a, b) in enumerate(pairs):
+        if va[k] is not None and vb[k] is not None:
+            ctx.violation("PCACD(online_scaling=%s): the run is neither the online-scaling behaviour (rejected at event %d, %s) nor the raw one (rejected at event %d, %s)"
+                          % ("numpy.bool_(True)" if a["params"]["flag"] == "npbool" else "1", va[k]["at"], va[k]["clauses"][:2], vb[k]["at"], vb[k]["clauses"][:2]),
+                          {"stage": "truthy flags", "replay": {"params": a["params"], "xs": a["xs"], "resets": [], "seed": a["seed"], "both": True}})
     ctx.assumptions += ["PCA, standardisation, kernel density estimates and histograms are computed by sklearn / numpy (kernel table); the "
                         "specification decides which windows they are applied to, when, and what follows from the score",
                         "_change_score is an optional private read; when readable it drives the embedded Page-Hinkley test bit-exactly"]
@@ -40,6 +63,14 @@ def run(ctx):
 
 def replay(ctx, bundle):
     r = bundle["replay"]
+    if r.get("both"):
+        from .. import tlc
+        ts2 = [D.run(dict(r["params"], online_scaling=m), r["xs"], (), r["seed"]) for m in (True, False)]
+        vs = [tlc.validate_traces("Trace_PCACD", [{"cfg": t["cfg"], "ev": t["ev"]}])[0][0] for t in ts2]
+        ctx.traces += 1
+        if all(v is not None for v in vs):
+            ctx.violation("PCACD with a truthy online_scaling flag is neither of the two modes: %r" % [v["at"] for v in vs], bundle)
+        return ctx.finish()
     t = D.run(r["params"], r["xs"], r["resets"], r["seed"])
     ctx.validate("PCACD", [t], "replay", replay=lambda i: r)
     return ctx.finish()
